@@ -49,16 +49,16 @@ def rand_flow(rng, nx: float, ny: float, speed: float, timedep: bool) -> dict[st
 def gen_cases(tier: str, seed: int) -> list[dict[str, Any]]:
     q = tier == "quick"
     cases = []
-    n1 = 60 if q else 1500
+    n1 = 60 if q else 18000
     for i in range(n1):
         cases.append(dict(kind="onestep", seed=seed, idx=i, scheme=["EF", "RK2", "RK4"][i % 3], metric=["iso", "aniso", "piecewise"][(i // 3) % 3]))
-    n2 = 36 if q else 900
+    n2 = 36 if q else 6000
     for i in range(n2):
         cases.append(dict(kind="order", seed=seed, idx=i, scheme=["EF", "RK2", "RK4"][i % 3]))
-    n3 = 12 if q else 240
+    n3 = 12 if q else 1500
     for i in range(n3):
         cases.append(dict(kind="helper", seed=seed, idx=i, order=[1, 2, 4][i % 3]))
-    n4 = 24 if q else 360
+    n4 = 24 if q else 3000
     for i in range(n4):
         cases.append(dict(kind="e2e", seed=seed, idx=i, scheme=["EF", "RK2", "RK4"][i % 3]))
     return cases
